@@ -52,6 +52,7 @@ def make_files(d, nf, R):
 
     paths = []
     layout = []
+    bu = R.random() < 0.5  # ordinary FITS parity (bottom-up) for the whole collection, or top-down
     for f in range(nf):
         lead = R.choice(["image", "empty", "empty"])
         hdus = []
@@ -80,7 +81,7 @@ def make_files(d, nf, R):
                 hdr = fits.Header()
                 for ki, key in enumerate(KEYS):
                     kk = key.strip()
-                    hdr.update(fitsgen.tan_header(1000 * f + 10 * idx + ki + 0.5, 7.0 + ki, key=kk))
+                    hdr.update(fitsgen.tan_header(1000 * f + 10 * idx + ki + 0.5, 7.0 + ki, key=kk, bottoms_up=bool(bu)))
                 h = fits.PrimaryHDU(data, header=hdr) if idx == 0 else fits.ImageHDU(data, header=hdr)
                 hl.append(h)
                 image_idx.append(idx)
@@ -225,6 +226,28 @@ def run_case(spec, workdir):
                 probs.append("export_simple()[%d] = %s, expected (%s, %d)" % (i, exs[i], os.path.basename(paths[i]), exp_h[i]))
             if getattr(descs[i], "collection_id", None) != paths[i] or getattr(imgs[i], "collection_id", None) != paths[i]:
                 probs.append("item %d not in input order (collection_id %s)" % (i, getattr(descs[i], "collection_id", None)))
+        # history: the collection object is used (analysed for tiling, which normalises the parity of the descriptions it is
+        # handed) and then asked again: descriptions and images must still describe the same HDUs with identical WCS
+        try:
+            coll._is_multi_tan()
+            from toasty.builder import Builder
+            from toasty.multi_tan import MultiTanProcessor
+            from toasty.pyramid import PyramidIO
+
+            MultiTanProcessor(coll).compute_global_pixelization(Builder(PyramidIO(os.path.join(workdir, "o"), default_format="fits")))
+        except Exception:
+            pass
+        d2 = list(coll.descriptions())
+        i2 = list(coll.images())
+        for i in range(min(len(d2), len(i2), nf)):
+            wa = np.array(d2[i].wcs.all_pix2world([[0.0, 0.0], [5.0, 3.0]], 0))
+            wb = np.array(i2[i].wcs.all_pix2world([[0.0, 0.0], [5.0, 3.0]], 0))
+            counters["items_identified"] += 1
+            if tuple(d2[i].shape) != tuple(i2[i].shape) or not np.allclose(wa, wb, rtol=0, atol=1e-9):
+                probs.append("after the collection was analysed for tiling, description %d and image %d disagree: pixel (0,0) is at %s vs %s" % (i, i, wa[0].round(6).tolist(), wb[0].round(6).tolist()))
+            fdd = identify(d2[i], False)
+            if fdd[:2] != (fidx[i], exp_h[i]):
+                probs.append("after reuse, description %d refers to (file %d, hdu %d), selected (file %d, hdu %d)" % (i, fdd[0], fdd[1], fidx[i], exp_h[i]))
     res = dict(counters=dict(counters), nontrivial=(nf >= 2 or spec["hsel"] != "none" or spec["ksel"] != "space"),
                sets=dict(selection=[[spec["hsel"], spec["ksel"], entry]]),
                sample=dict(spec=spec, hdu_index=hdu_index, wcs_key=wcs_key, expected_hdus=exp_h, layout=[l["image_hdus"] for l in layout]))
